@@ -164,7 +164,9 @@ def plan(tier, seed):
     n = 1 if tier == "quick" else 40
     return [{"mode": m, "cfg": c, "rseed": seed * 1000 + i * 3 + j, "reps": n}
             for i, m in enumerate(["direct", "ud", "src", "pel", "direct"]) for j, c in enumerate(["absent", "full", "partial"])] + \
-           [{"mode": "ud", "cfg": "full", "rseed": seed * 1000 + 99, "reps": n}]
+           [{"mode": "ud", "cfg": "full", "rseed": seed * 1000 + 99, "reps": n},
+            {"mode": "pel", "cfg": "full", "rseed": seed * 1000 + 98, "reps": n, "optimize": True},
+            {"mode": "ud", "cfg": "partial", "rseed": seed * 1000 + 97, "reps": n, "optimize": True}]
 
 
 def minimums(tier):
